@@ -16,12 +16,12 @@ ctest --test-dir _build 2>&1 | grep -q "100% tests passed" && echo "ctest with c
 build_demo > /tmp/sc-demo.log 2>&1 || { echo "demo build failed: $DEMOCMD"; tail -5 /tmp/sc-demo.log; }
 DEMOBIN=$(echo "$DEMOCMD" | grep -o '\-o [^ ]*' | awk '{print $2}')
 case "$DEMOBIN" in /*) RUN="$DEMOBIN";; *) RUN="./$DEMOBIN";; esac
-( cd "$CH" && timeout 300 $RUN > /tmp/sc-run1.log 2>&1 ); RC1=$?
+( cd "$CH" && timeout 600 ${RUNWRAP:-} $RUN > /tmp/sc-run1.log 2>&1 ); RC1=$?
 echo "demo with change: rc=$RC1 $(tail -1 /tmp/sc-run1.log | cut -c1-160)"
 git checkout -q -- .
 cmake --build _build > /tmp/sc-build2.log 2>&1
 build_demo > /dev/null 2>&1
-( cd "$CH" && timeout 300 $RUN > /tmp/sc-run2.log 2>&1 ); RC2=$?
+( cd "$CH" && timeout 600 ${RUNWRAP:-} $RUN > /tmp/sc-run2.log 2>&1 ); RC2=$?
 echo "demo without change: rc=$RC2"
 rm -f "$CH/$DEMOBIN" "$DEMOBIN" 2>/dev/null
 [ $RC1 -ne 0 ] && [ $RC2 -eq 0 ] && echo CONFIRMED || echo NOT-CONFIRMED
